@@ -203,3 +203,78 @@ func c06Reissue(addr string, cid int) (viol [][2]string, incon bool, frames int)
 	}
 	return
 }
+
+// c06Pipelined: two sub-packaged 0x0801 uploads sent back to back in ONE write (the terminal does not wait for the first 0x8800
+// before it starts the second), the second with no more packets than the first; then a heartbeat. Every upload is answered with
+// its OWN multimedia ID, in completion order, platform serials consecutive.
+func c06Pipelined(addr string, cid int, seed uint64, rounds int) (viol [][2]string, incon bool, done int) {
+	bad := func(sig, detail string) { viol = append(viol, [2]string{sig, detail}) }
+	g := gen.G{Rand: core.NewRand(seed, "c06pipe", uint64(cid))}
+	v2019 := g.Bool()
+	t, err := svc.Dial(addr, v2019, fmt.Sprintf("%d", 6800000+cid))
+	if err != nil {
+		return nil, true, 0
+	}
+	defer t.Close()
+	serial := uint16(g.Intn(30000))
+	pserial := 0
+	for round := 0; round < rounds; round++ {
+		na := 2 + g.Intn(4)
+		nb := 1 + g.Intn(na)
+		if nb < 2 {
+			nb = 2
+		}
+		mkBody := func(tag byte) []byte {
+			b := c06Body(g, 0x0801, v2019, t.Phone)
+			for len(b) < 36+8 {
+				b = append(b, 0x33)
+			}
+			b[0], b[1], b[2], b[3] = tag, byte(round), byte(cid), byte(g.Intn(256))
+			return b
+		}
+		ba, bb := mkBody(0xA1), mkBody(0xB2)
+		var burst []byte
+		for k := 1; k <= na; k++ {
+			serial++
+			burst = append(burst, t.SubFrame(0x0801, serial, uint16(na), uint16(k), ba[(k-1)*len(ba)/na:k*len(ba)/na])...)
+		}
+		for k := 1; k <= nb; k++ {
+			serial++
+			burst = append(burst, t.SubFrame(0x0801, serial, uint16(nb), uint16(k), bb[(k-1)*len(bb)/nb:k*len(bb)/nb])...)
+		}
+		serial++
+		hs := serial
+		if g.Bool() {
+			burst = append(burst, t.Frame(0x0002, hs, nil)...)
+			t.Write(burst)
+		} else {
+			t.Write(burst)
+			t.Write(t.Frame(0x0002, hs, nil))
+		}
+		var ids [][]byte
+		for q := 0; q < 3; q++ {
+			rx, ok, to := t.Next(30 * time.Second)
+			if to {
+				return viol, true, done
+			}
+			if !ok || rx.F == nil {
+				bad("reply|connection closed by the server during a valid conversation", fmt.Sprintf("pipelined uploads conn %d round %d", cid, round))
+				return
+			}
+			if int(rx.F.Serial) != pserial%65536 {
+				bad("serial|platform serial numbers not consecutive from 0 (mod 65536)", fmt.Sprintf("pipelined uploads conn %d: frame #%d carries %d", cid, pserial, rx.F.Serial))
+				return
+			}
+			pserial++
+			if rx.F.ID == 0x8800 {
+				ids = append(ids, rx.F.Body)
+			}
+		}
+		if len(ids) != 2 || !bytes.Equal(ids[0], ba[:4]) || !bytes.Equal(ids[1], bb[:4]) {
+			bad("reply|wrong reply body (echoed serial/ID/result/auth code/multimedia ID)|pipelined-uploads", fmt.Sprintf("conn %d round %d: uploads %x (%d parts) and %x (%d parts) sent back to back were answered with %x", cid, round, ba[:4], na, bb[:4], nb, ids))
+			return
+		}
+		done++
+	}
+	return
+}
